@@ -51,7 +51,7 @@ func (bc *bufferedConn) Write(b []byte) (int, error) {
 }
 
 func (bc *bufferedConn) writeProcess() {
-	pktBuf := make([]byte, receiveMTU)
+	pktBuf := make([]byte, receiveMTU+streamingPacketHeaderLen) // the queued elements are framed packets
 	for atomic.LoadInt32(&bc.closed) == 0 {
 		n, err := bc.buf.Read(pktBuf)
 		if errors.Is(err, io.EOF) {
